@@ -38,6 +38,14 @@ LEGACY_SIGHASH = [1, 2, 3, 0x81, 0x82, 0x83]
 TAPROOT_SIGHASH = [0, 1, 2, 3, 0x81, 0x82, 0x83]
 
 
+def outcome_ok(f, *a):
+    try:
+        f(*a)
+        return True
+    except Exception:  # noqa: BLE001
+        return False
+
+
 def H(*a) -> bytes:
     return hashlib.sha256(repr(a).encode()).digest()
 
@@ -145,6 +153,21 @@ class FlowGen:
             fl.prevouts.append(fund.vout[pos])
         if fl.psbt_version == 2:
             psbt = psbt.to_v2()
+            # BIP370: inputs may require a lock time; the transaction's is then computed from them, not the fallback
+            if r.random() < 0.4:
+                for k in r.sample(range(len(shapes)), r.choice([1, min(2, len(shapes))])):
+                    if r.random() < 0.7:
+                        psbt.inputs[k].required_height_lock_time = r.choice([1, 100, 144, 499_999_999])
+                    else:
+                        psbt.inputs[k].required_time_lock_time = r.choice([500_000_000, 1_700_000_000])
+                if any(p.required_height_lock_time for p in psbt.inputs) and any(p.required_time_lock_time for p in psbt.inputs):
+                    for p in psbt.inputs:      # BIP370 refuses a mix that no lock time satisfies: keep the heights
+                        p.required_time_lock_time = None
+                fl.note["required_lock_times"] = True
+                if outcome_ok(psbt.assert_valid) is False:
+                    for p in psbt.inputs:
+                        p.required_height_lock_time = p.required_time_lock_time = None
+                    fl.note["required_lock_times"] = False
         fl.created = psbt
         return fl
 
